@@ -305,6 +305,22 @@ def _agnostic(check: Check):
       isinstance(s, ast.Raise) for s in nd.ast.body) for nd in bff.cfg.nodes if nd.kind == 'if')
   check.ob('R-SIMPLEX', bld, 'abs(sum(init_domain_weights) - 1) > 1e-6 -> ValueError', val,
            'initial domain weights must sum to 1')
+  # the test is two-sided: |sum - 1| (or two comparisons), not only "sum too large"
+  tests = [nd.ast.test for nd in bff.cfg.nodes if nd.kind == 'if' and 'sum(init_domain_weights)' in txt(nd.ast.test) and any(
+      isinstance(s, ast.Raise) for s in nd.ast.body)]
+  two_sided = False
+  n_cmp = 0
+  for t in tests:
+    has_abs = any(isinstance(x, ast.Call) and bff.ext(x.func) in ('builtins.abs', 'jax.numpy.abs', 'numpy.abs', 'math.fabs') and any(
+        'sum(init_domain_weights)' in txt(a) for a in x.args) for x in ast.walk(t))
+    close = any(isinstance(x, ast.Call) and (bff.ext(x.func) or '').endswith(('isclose', 'allclose')) for x in ast.walk(t))
+    n_cmp += sum(1 for x in ast.walk(t) if isinstance(x, ast.Compare) and 'sum(init_domain_weights)' in txt(x))
+    two_sided = two_sided or has_abs or close
+  two_sided = two_sided or n_cmp >= 2
+  if tests:
+    check.ob('R-SIMPLEX.init', bld, txt(tests[0])[:70], two_sided,
+             'the initial weights are rejected when they sum to less than 1 as well as when they sum to more: a one-sided test lets '
+             'weights that do not lie on the simplex through', node=tests[0])
 
 
 def _hyp(check: Check):
